@@ -112,6 +112,21 @@ func writeOverlayJSON(dir string) (string, error) {
 	if err != nil {
 		return "", err
 	}
+	// The native build also gets an instrumented copy of cache/cache.go, regenerated from the
+	// current source: Dump's os.WriteFile goes through verifWriteFile (harness/runh/inpkg__cache__hook.go)
+	// so that a kill inside a write of the cache file can be replayed at exactly that write.
+	// If the call is not found (the source changed) the file is left alone and such kills are
+	// not replayable natively (reported as such, never as a pass).
+	if src, err := os.ReadFile(filepath.Join(repoDir, "cache", "cache.go")); err == nil {
+		const call = "os.WriteFile(path, contents, filePerms)"
+		if bytes.Count(src, []byte(call)) == 1 {
+			inst := bytes.Replace(src, []byte(call), []byte("verifWriteFile(path, contents, filePerms)"), 1)
+			ip := filepath.Join(dir, "cache_instrumented.go")
+			if os.WriteFile(ip, inst, 0o644) == nil {
+				files[filepath.Join(repoDir, "cache", "cache.go")] = ip
+			}
+		}
+	}
 	ov := struct {
 		Replace map[string]string
 	}{files}
